@@ -259,6 +259,7 @@ func runC06Poll(c *Ctx) {
 				}
 				atomic.AddInt64(&total, 1)
 				if k%64 == 0 {
+					rig.CallTick() // (library calls of the harness that complete are progress: the busy-loop watch must not take a long poll for a library that computes forever)
 					runtime.Gosched()
 				}
 			}
@@ -325,6 +326,9 @@ func runC06Poll(c *Ctx) {
 						case <-stop2:
 							return
 						default:
+						}
+						if k%64 == 0 {
+							rig.CallTick()
 						}
 						if g == 3 && k%64 == 0 {
 							_ = s.Conn.String()
